@@ -174,7 +174,7 @@ PROPS = {
         level_note='Trusts the reference semantics in harness/c14.cpp (clamp with atoi/atof of the metadata strings as a reader of the metadata would). Char-backed kinds are driven with values the storage type can represent; unknown option symbols are excluded; array port names contain no digits.',
         technique='reference-model differential monitor with full object snapshots, AddressSanitizer/UBSan',
         stages=[dict(harness='c14', variant='asan', quick=1600, thorough=100000,
-                     need=['msgs.query', 'msgs.set', 'undo.expected_event', 'undo.expected_none', 'options.split_mapping_block', 'nesting.below_enumerated_subtree', 'msgs.float_one_ulp_step', 'options.numeral_symbols', 'meta.special_before_range', 'msgs.preceded_by_other_traffic_in_same_loc'] + ['kind.' + k for k in ['rParam(char)', 'rParam(uchar)', 'rParamI', 'rParamF', 'rToggle', 'rOption', 'rString', 'rArrayF', 'rArrayI', 'rArrayT', 'rArrayOption']])],
+                     need=['msgs.query', 'msgs.set', 'undo.expected_event', 'undo.expected_none', 'options.split_mapping_block', 'nesting.below_enumerated_subtree', 'msgs.float_one_ulp_step', 'options.numeral_symbols', 'meta.special_before_range', 'msgs.preceded_by_other_traffic_in_same_loc'] + ['kind.' + k for k in ['rParam(char)', 'rParam(uchar)', 'rParamI', 'rParamF', 'rParamF(double)', 'rToggle', 'rOption', 'rString', 'rArrayF', 'rArrayI', 'rArrayT', 'rArrayOption']])],
         rule='case = one port configuration (kind, name, metadata, array length, nesting) with a sequence of 20..100 messages; evaluations counts messages; '
              'distinct = hash of the configuration; every case is non-trivial.',
         exhaustive=dict(quick=False, thorough=False),
